@@ -246,6 +246,7 @@ func childMain() {
 	}
 	w := bufio.NewWriter(of)
 	st := &childStats{}
+	selftest := os.Getenv("C16_SELFTEST")
 	for i := start; i < len(inputs); i++ {
 		for c := 0; c < nCombos; c++ {
 			if onlyCombo >= 0 && c != onlyCombo {
@@ -254,6 +255,15 @@ func childMain() {
 			binary.LittleEndian.PutUint32(mem[0:], uint32(i))
 			binary.LittleEndian.PutUint32(mem[4:], uint32(c))
 			binary.LittleEndian.PutUint32(mem[8:], 1) // valid
+			if selftest != "" && fmt.Sprintf("crash@%d/%d", i, c) == selftest {
+				// harness self-test of the batch protocol: die the way a panic in a foreign goroutine would
+				done := make(chan struct{})
+				go func() { panic("c16 self-test crash") }()
+				<-done
+			}
+			if selftest != "" && fmt.Sprintf("hang@%d/%d", i, c) == selftest {
+				select {}
+			}
 			decodeOne(inputs[i], c, st, func(clause, where, detail string) {
 				j, _ := json.Marshal(childViol{Idx: i, Combo: c, Clause: clause, Where: where, Detail: detail})
 				w.Write(append(j, '\n'))
